@@ -93,6 +93,9 @@ SetAttr(a, f, v, m, name, idx, val) ==
 Get(m, c) == IF c \in DOMAIN m THEN m[c] ELSE Base(c)
 Put(m, c, v) == IF c < 0 THEN m ELSE (c :> v) @@ m               \* c < 0: ROM, not part of a snapshot
 
+\* cells whose content differs between two memories (both only differ on tracked cells)
+Changed(m1, m2) == {c \in DOMAIN m1 \cup DOMAIN m2 : Get(m1, c) # Get(m2, c)}
+
 \* the cell behind a CPU address: 0x0000 ROM, 0x4000 bank 5, 0x8000 bank 2, 0xC000 bank 0 (48K) or the
 \* bank selected by bits 0-2 of the last OUT to 0x7ffd (128K)
 TopBank(m, o7ffd) == IF m = "48K" THEN 0 ELSE o7ffd % 8
@@ -146,6 +149,18 @@ MoveOK(m, spage, src, n, dpage, dst) ==
   /\ PageOK(m, spage) /\ PageOK(m, dpage) /\ (spage = -1) = (dpage = -1) /\ n >= 0
   /\ IF spage = -1 THEN src >= BankSize /\ src + n <= AddrSpace /\ dst >= 0 /\ dst + n <= AddrSpace
      ELSE (src % BankSize) + n <= BankSize /\ (dst % BankSize) + n <= BankSize     \* inside the named banks
+\* a bank-prefixed move that does not fit inside the named banks: the documentation does not say whether it is
+\* clipped or wraps, so only the frame condition is specified: at most the named destination cells (clipped at
+\* the end of the destination bank) change, and every bank keeps its size
+MoveOverOK(m, spage, src, n, dpage, dst) ==
+  /\ spage \in 0..7 /\ dpage \in 0..7 /\ m # "48K" /\ n >= 0 /\ src >= 0 /\ dst >= 0
+  /\ ((src % BankSize) + n > BankSize \/ (dst % BankSize) + n > BankSize)
+MoveOverAllowed(dpage, n, dst) ==
+  LET d == dst % BankSize
+      last == IF d + n > BankSize THEN BankSize - 1 ELSE d + n - 1 IN
+  {((dpage % 8) * BankSize) + off : off \in d..last}
+MoveOverRel(mm, mm2, dpage, n, dst) == Changed(mm, mm2) \subseteq MoveOverAllowed(dpage, n, dst)
+
 PatchOK(m, page, a, data) == PageOK(m, page) /\ a \in 0..(AddrSpace - 1) /\ \A k \in 1..Len(data) : data[k] \in 0..255
 
 (***************************************************************************)
@@ -169,6 +184,13 @@ Poke(page, a, b, step, op, v) ==
 Move(spage, src, n, dpage, dst) ==
   /\ MoveOK(machine, spage, src, n, dpage, dst)
   /\ mem' = DoMove(mem, machine, attrs.o7ffd, spage, src, n, dpage, dst)
+  /\ UNCHANGED <<fmt, ver, machine, regs, attrs>>
+
+\* (mem' is not determined by the action: the trace module supplies it from the observation)
+MoveOver(spage, src, n, dpage, dst, newmem) ==
+  /\ MoveOverOK(machine, spage, src, n, dpage, dst)
+  /\ MoveOverRel(mem, newmem, dpage, n, dst)
+  /\ mem' = newmem
   /\ UNCHANGED <<fmt, ver, machine, regs, attrs>>
 
 Patch(page, a, data) ==
@@ -199,8 +221,6 @@ Invoke(ops) ==
      regs' = s.regs /\ attrs' = s.attrs /\ mem' = s.mem
   /\ UNCHANGED <<fmt, ver, machine>>
 
-\* cells whose content differs between two memories (both only differ on tracked cells)
-Changed(m1, m2) == {c \in DOMAIN m1 \cup DOMAIN m2 : Get(m1, c) # Get(m2, c)}
 
 TypeOK ==
   /\ \A n \in Reg16 : regs[n] \in 0..65535
